@@ -509,8 +509,31 @@ class Body:
                 return ("str", o["s"])
             if "v" in o:
                 return ("const", _ival(o["v"]), o.get("t"))
+            if o.get("promoted") and "pi" in o and depth < 20:
+                pe = self.promoted_expr(o["pi"])
+                if pe is not None:
+                    return pe
             return ("const", None, o.get("t", "?"))
         return ("unknown", o.get("t", "?"))
+
+    def promoted_expr(self, idx):
+        """Value of promoted constant #idx of this body (expression of its return place)."""
+        if not hasattr(self, "_prom"):
+            self._prom = {}
+        if idx in self._prom:
+            return self._prom[idx]
+        ps = self.raw.get("promoted") or []
+        res = None
+        if idx < len(ps):
+            raw = {"path": self.path + "::promoted[%d]" % idx, "kind": "promoted", "file": self.file, "line": self.line,
+                   "vis": "n/a", "argc": 0, "locals": ps[idx]["locals"], "names": {}, "blocks": ps[idx]["blocks"]}
+            pb = Body(self.prog, self.crate, raw)
+            ds = pb.defs.get(0, [])
+            if len(ds) == 1:
+                d = ds[0]
+                res = pb.rvalue_expr(d[3]) if d[0] == "stmt" else pb.call_expr(d[3], d[1])
+        self._prom[idx] = res
+        return res
 
     def rvalue_expr(self, r, depth=0, stack=()):
         k = r["k"]
